@@ -1,5 +1,24 @@
-"""Table of checks: which worker parts decide which property, at which level."""
+"""Table of checks: which worker parts decide which property, at which level.
+tool/mkmanifest.py derives MANIFEST.json from it."""
+
+ENGINES = [
+    dict(name="xstate", path="/verif/harness/lib/xstate.go", serves_properties=["C17"],
+         kind_free_text="explicit-state breadth-first search over operation histories of real oxy objects under a frozen clock; successor = replay on a fresh instance + one operation; state key = reflective deep dump + oracle monitor"),
+]
+
+NOTES = ("All checks run the real oxy code (no separate model): exhaustive enumeration of operation histories, thread "
+         "schedules or inputs/faults within the bounds stated in each evidence file. See DESIGN.md.")
+
+ALL = ["C%02d" % i for i in range(1, 21)]
 
 CHECKS = {
-    "C17": dict(level="model_checking", parts=[dict(bin="vh", part="c17", shards=16, budget=dict(quick=100, thorough=1500))]),
+    "C17": dict(
+        level="model_checking", engine="xstate", design_ref="DESIGN.md §5 C17",
+        technique="explicit-state BFS over all operation histories (bounded depth, exact state keys) on the real RollingCounter/RatioCounter vs a timestamp-list reference",
+        text="Every history of Inc/Count/Advance up to the depth bound, for 120 (buckets, resolution, clock base) configurations, is executed on the real counter; in every reached state Count()/Ratio() must lie between the sums of the reference increments inside (N-1)r and N*r.",
+        note="frozen clock, one instant per API call (A2); parameters limited to the listed alphabet (A4)",
+        parts=[dict(bin="vh", part="c17", shards=16, budget=dict(quick=100, thorough=1500))]),
 }
+
+NOT_APPLICABLE = [dict(property_id=p, reason="check not built yet in this revision (work in progress; see DESIGN.md for the plan)")
+                  for p in ALL if p not in CHECKS]
